@@ -74,6 +74,13 @@ void run_md(const MdPlan &pl) {
         for (size_t c = 0; c < 4; ++c) { Pt<D> ctr = rnd_pt(); for (size_t i = 0; i < pl.n / 4 + 1; ++i) { Pt<D> p = ctr; for (auto &v : p) v = std::min(side - 1, std::max(0LL, v + (long long) rng.below(5) - 2)); pts.push_back(p); } }
     } else if (pl.kind == "line") {      // points on a diagonal / axis: long stretches of the Z curve without points
         for (size_t i = 0; i < pl.n; ++i) { Pt<D> p{}; long long v = (long long) rng.below((uint64_t) side); for (size_t d = 0; d < D; ++d) p[d] = (d % 2 ? v : (rng.chance(1, 3) ? 0 : v)); pts.push_back(p); }
+    } else if (pl.kind == "heavy") {     // few distinct points, some of them stored many times (more copies than a search window holds)
+        size_t distinct = 8 + rng.below(30);
+        for (size_t i = 0; i < distinct; ++i) {
+            Pt<D> p = rnd_pt();
+            size_t copies = rng.chance(1, 3) ? 1 : rng.chance(1, 2) ? 2 + rng.below(6) : 2 * Eps + 3 + rng.below(3 * Eps + 40);
+            for (size_t c = 0; c < copies; ++c) pts.push_back(p);
+        }
     } else {                             // "random"
         for (size_t i = 0; i < pl.n; ++i) { pts.push_back(rnd_pt()); if (rng.chance(1, 10)) pts.push_back(pts.back()); }
     }
@@ -165,6 +172,8 @@ void drive(const Plan &p, uint64_t salt, int side_dense, int side_sparse) {
         run_md<D, T, Eps>({"random", side_sparse, 1 + rng.below(4), {"random", "tiny"}, rng.next()});
         run_md<D, T, Eps>({"clusters", side_sparse, 40 + rng.below(100), {"clusters"}, rng.next()});
         run_md<D, T, Eps>({"line", side_sparse, 30 + rng.below(100), {"line"}, rng.next()});
+        run_md<D, T, Eps>({"heavy", std::max(4, side_dense / 2), 0, {"heavy"}, rng.next()});
+        run_md<D, T, Eps>({"heavy", side_sparse, 0, {"heavy", "top_block"}, rng.next(), 1});
         // the same shapes in the topmost / a random aligned block of the encodable coordinate range
         run_md<D, T, Eps>({"dense", std::max(2, side_dense / 2), 0, {"dense", "top_block"}, rng.next(), 1});
         run_md<D, T, Eps>({"random", side_sparse, 1 + rng.below(quick ? 150 : 600), {"random", "top_block"}, rng.next(), 1});
